@@ -15,7 +15,7 @@ from ..gen import c03_common as K
 
 PID = "C03"
 COQ_HEADER = ("From Coq Require Import List NArith ZArith Bool.\nImport ListNotations.\n"
-              "From SK Require Import lib.Tok lib.LGraph model.C03_Model model.C03_Order model.C03_Reactor.\n")
+              "From SK Require Import lib.Tok lib.LGraph model.C03_Model model.C03_Order model.C03_Reactor proof.C03_ReactorSpec.\n")
 SHARD = 24
 IMPL_TIMEOUT = 1500
 COQ_TIMEOUT = 1500
@@ -25,7 +25,7 @@ RULE = ("(template, substrate, direction, strategy, hydrogen mode) with template
         "hand-made rule, or a synthetic ITS graph planted on a random host; non-trivial = at least one glued result and a "
         "template with >= 2 changed bonds; distinct = distinct (template, substrate, configuration)")
 EXHAUSTIVE = {"quick": False, "thorough": False}
-EXPLANATION = ("67 theorems (coq/props/C03.v) about the Gallina model of SynReactor._glue_graph/_node_glue, _invert_template, _explicit_h, "
+EXPLANATION = ("71 theorems (coq/props/C03.v) about the Gallina model of SynReactor._glue_graph/_node_glue, _invert_template, _explicit_h, "
                "h_to_explicit and SynRule.__init__ (implicit-template mode; default mode for templates without explicit H atoms): for every host, rule and valid match the reactant side of the glued ITS "
                "(on its_decompose, what _to_smarts serialises) is the substrate; element counts incl. hydrogen and total charge agree on both "
                "sides for a balanced rule (and differ by exactly the rule's imbalance otherwise); changed bonds = image of the rule's bonds with "
@@ -660,10 +660,12 @@ def _impl_one(case):
     obs.append(0 if rec.its_err is None else 1)
     obs.append(1)                            # wf_rcb rule.rc && wf_hostb host (recomputed by the model)
     obs.append(1)                            # the explicit-hydrogen route is taken exactly when the pattern keeps X-H (model: flag vs re-matches)
+    obs = [obs, 1]                           # rule_link_okb: the rule's left graph is the reactant side of its rule graph (model recomputes it)
     if case.get("reads"):
         return [obs, 1 if rec.reads_ok else 0]   # repeated reads of the cached attributes all gave the first value
     if pre is not None and pre.get("script") is not None:
-        return [obs, [K.script_obs(rec), 1]]     # the value of every scripted read (model: run_reads); 1 = the capstone's hypotheses hold (model: hyps_okb)
+        # the value of every scripted read (model: run_reads); 1 = the capstone's hypotheses hold (model: hyps_okb); 1 = ... in the matcher-contract form (matcher_hyps_okb)
+        return [obs, [K.script_obs(rec), 1], 1]
     return obs
 
 
@@ -700,6 +702,9 @@ def coq_case(case):
     mode = case.get("mode", "E")
     tbls = K.cl([K.cl([K.cl([K.cl([K.cN(x) for x in o]) for o in tbl]) for tbl in row]) for row in pre.get("ords", [])])
     t = "%s %s %s %s %s %s %s %s" % ("run_c03ro" if case.get("tpl_form") == "synrule" else "run_c03o", K.cb(case.get("invert", False)), K.cb(mode == "I"), K.cb(mode == "E"), host, tpl, K.cl(calls), tbls)
+    # the prepared rule's left graph IS the reactant side of its rule graph as far as matching goes (hypothesis of
+    # C03_its_list_instances_matcher that concerns the rule alone): evaluated on every case
+    t = "L [%s; tbool (rule_link_okb (mk_rule %s %s %s %s))]" % (t, K.cb(case.get("invert", False)), K.cb(mode == "I"), K.cb(case.get("tpl_form") == "synrule"), tpl)
     if case.get("reads"):
         return "L [%s; tbool true]" % t
     if pre.get("script") is not None:
@@ -708,7 +713,10 @@ def coq_case(case):
         rd = "run_reads %s %s %s %s %s %s %s %s %s %s" % (K.cb(case.get("invert", False)), K.cb(mode == "I"), K.cb(mode == "E"),
                                                    K.cb(case.get("tpl_form") == "synrule"), host, tpl, K.cl(calls), tbls, sers,
                                                    K.cl([K.cN(x) for x in pre["script"]]))
-        return "L [%s; %s]" % (t, rd)
+        # the hypotheses of C03_its_list_instances_matcher (matcher contract on the rule's left graph, left_of_rcb, edges_closedb, wf) as one boolean
+        mh = "tbool (matcher_hyps_okb (mk_rule %s %s %s %s) %s %s)" % (K.cb(case.get("invert", False)), K.cb(mode == "I"),
+                                                                       K.cb(case.get("tpl_form") == "synrule"), tpl, host, K.cl(calls))
+        return "L [%s; %s; %s]" % (t, rd, mh)
     return t
 
 
@@ -820,12 +828,18 @@ def _flat(case, obs):
         return out
     if case.get("reads") and isinstance(obs, list) and len(obs) == 2 and isinstance(obs[0], list):
         obs = obs[0]
+    elif (case.get("pre") or {}).get("script") is not None and isinstance(obs, list) and len(obs) == 3 and isinstance(obs[0], list):
+        obs = obs[0]
+    if isinstance(obs, list) and len(obs) == 2 and isinstance(obs[0], list) and obs[1] == 1 and len(obs[0]) >= 4:
+        obs = obs[0]                         # [standard observable, rule_link bit]
     return [(case, obs)]
 
 
 def nontrivial(case, obs):
-    if case.get("kind") == "history" or case.get("reads"):
-        return any(nontrivial(c, o) for c, o in _flat(case, obs) if not (c.get("kind") == "history" or c.get("reads")))
+    return any(_nontrivial_one(c, o) for c, o in _flat(case, obs))
+
+
+def _nontrivial_one(case, obs):
     if not isinstance(obs, list) or len(obs) < 4 or obs[0] == "SKIP":
         return False
     calls = obs[3]
@@ -1060,7 +1074,7 @@ def gen_cases(tier, rng):
     return prepare_all(cases)
 
 
-LEVEL_TEXT = ("Machine-checked proof (Coq, 67 theorems, all closed under the global context) over an executable model of gluing a rule onto a "
+LEVEL_TEXT = ("Machine-checked proof (Coq, 71 theorems, all closed under the global context) over an executable model of gluing a rule onto a "
               "substrate along a match (SynReactor._glue_graph/_node_glue), _invert_template, _explicit_h, h_to_explicit and SynRule.__init__ "
               "(implicit-template mode; default mode for templates without explicit hydrogen atoms): for EVERY substrate graph, rule graph and valid match (boolean hypotheses wf_hostb, wf_rcb, match_rcb) "
               "(a) the reactant molecule graph of the glued ITS is the substrate (same atoms in the same order, same bonds), (b) every element "
